@@ -7,12 +7,19 @@ props = [json.loads(l) for l in open(os.path.join(ROOT, 'properties.jsonl'))]
 ids = [p['id'] for p in props]
 
 # property -> (category, text, note, technique, design_ref, engine)
+BFS = 'bounded exhaustive state-space exploration (BFS over operation histories with canonical-state deduplication) of the real implementation'
+TRUST = 'Bounds are small (2-3 replicas, 3 element ids, depth as reported in the evidence); the small-scope hypothesis bridges to larger cases. sha256/7-hex-tail collisions are not explored. '
 CHECKS = {
+ 'C01': ('model_checking', 'Every distinct state of 2- and 3-replica histories; for every ordered replica pair the union of their storages is reached by five routes (fresh open on a file copy - also under permuted hash-iteration and listing orders -, copy+refresh, reload, item-by-item refresh, meld fix-point) and all views must coincide.', TRUST + 'Delivery orders beyond ascending/descending/all-at-once are enumerated by C02.', BFS + ' + route enumeration per state', 'DESIGN.md §4 C01', 'H'),
+ 'C02': ('model_checking', 'For every distinct state and every (source, target) pair lacking 1..N items: every permutation of the missing files delivered one at a time with refresh after each; after every delivery applied blocks == causally complete blocks (independent raw-byte reference), view == fresh open == fresh open of the complete sub-store.', TRUST + 'Reference completeness model is ~150 lines over serde_json/sha256 (harness/src/refmodel.rs).', BFS + ' + exhaustive permutation of delivery orders against a reference model', 'DESIGN.md §4 C02', 'H'),
+ 'C03': ('model_checking', 'At every successful commit transition of the explored histories a fresh replica opened on a byte copy of the storage must expose the same view and block graph; plus an exhaustive content sweep (all strings over a brace/quote/backslash alphabet up to a length bound in 6 positions, a number family, two-commit cases) through update-commit-reopen.', TRUST + 'Foreign items melded but not yet refreshed are excluded from the reopened copy (outside the statement).', BFS + ' + exhaustive enumeration of a content alphabet', 'DESIGN.md §4 C03', 'H,P'),
+ 'C04': ('model_checking', 'In every distinct state and for every document of the menu: update then read must equal an independently computed expectation exactly (weaker multiset clause while an array descriptor is in conflict); a second identical update changes nothing; commit with nothing staged writes nothing.', TRUST + 'Well-formed documents: flattened-array elements carry unique string _id not starting with ^. Two input classes are recorded as known findings.', BFS + ' with a reference function for the expected document', 'DESIGN.md §4 C04', 'H'),
  'C08': ('model_checking',
          'Explicit-state breadth-first exploration of operation histories over real replicas (2-3 replicas, small document menu); in every distinct state every operation of the full API alphabet is attempted under catch_unwind and a heartbeat watchdog, for several rayon pool sizes. Coverage statement: no operation panics or fails to return in any state reachable within the stated depth.',
          'Trusted: the watchdog threshold (10 s without progress = did not return); real rayon timing is not enumerated (pool sizes are).',
-         'bounded exhaustive state-space exploration (BFS with canonical-state deduplication) of the real implementation',
-         'DESIGN.md §3.1, §4 C08', 'H'),
+         BFS, 'DESIGN.md §3.1, §4 C08', 'H'),
+ 'C11': ('model_checking', 'Storage monitor evaluated on every replica after every transition: content-addressed names (sha256 of bytes, block index = 1 + highest parent index parsed from raw bytes), append-only, byte-identical across replicas, no conflicting write ever issued; plus a commit-metadata sweep melded between replicas.', TRUST, BFS + ' with a storage invariant on every transition', 'DESIGN.md §4 C11', 'H'),
+ 'C13': ('model_checking', 'At every commit transition: one block whose raw parents are the previous heads, index above every parent, sole head afterwards; in every state: applied blocks ancestor-closed and acyclic, heads == applied blocks not named as parent, get_delta == independently parsed raw file.', TRUST, BFS + ' with a graph invariant on every state and transition', 'DESIGN.md §4 C13', 'H'),
 }
 
 def hooks_commits():
@@ -33,7 +40,7 @@ m = {
   'add_only': True,
  },
  'engines': [
-  {'name': 'H', 'path': 'harness/src/explore.rs', 'serves_properties': sorted(k for k, v in CHECKS.items() if 'H' in v[5]),
+  {'name': 'H', 'path': 'harness/src/explore.rs', 'serves_properties': sorted(k for k, v in CHECKS.items() if 'H' in v[5].split(',')),
    'kind_free_text': 'explicit-state BFS over operation histories of real Melda replicas on an instrumented in-memory adapter; states deduplicated by a canonical dump of storage, revision trees, stage, block statuses and caches'},
  ],
  'checks': [],
